@@ -107,6 +107,30 @@ Proof.
   apply hex_decode_length in E. rewrite app_length, repeat_length in E. lia.
 Qed.
 
+(** MustHexPadLeft: the text is brought to 2*size characters (zeros on the left, or its rightmost 2*size characters)
+    and decoded; the result has exactly size bytes; text that is not hexadecimal is refused by a panic *)
+Theorem must_hex_pad_left_spec s size :
+  (0 <= size < 2 ^ 62)%Z ->
+  must_hex_pad_left s size =
+    (let padded := if (2 * size <=? zlen s)%Z then skipn (length s - Z.to_nat (2 * size)) s
+                   else repeat 48 (Z.to_nat (2 * size) - length s) ++ s in
+     match hex_decode padded with Some b => Ok b | None => Panic end)
+  /\ forall b, must_hex_pad_left s size = Ok b -> Z.of_nat (length b) = size.
+Proof.
+  intros Hs. unfold must_hex_pad_left.
+  assert (wrap_int64 (size * 2) = 2 * size)%Z as ->.
+  { unfold wrap_int64, to_int64, of_int64. change (2 ^ 62)%Z with 4611686018427387904%Z in Hs.
+    change (Z.of_N two64) with 18446744073709551616%Z.
+    rewrite Z.mod_small by lia.
+    destruct (N.ltb_spec (Z.to_N (size * 2)) two63) as [L|L]; [rewrite Z2N.id by lia; lia|].
+    exfalso. change two63 with 9223372036854775808 in L. lia. }
+  destruct (left_pad_hex_spec s (2 * size)%Z ltac:(lia)) as [r [Hr [Hl Hshape]]]. rewrite Hr.
+  split.
+  - destruct (2 * size <=? zlen s)%Z; subst r; reflexivity.
+  - intros b. destruct (hex_decode r) as [x|] eqn:E; [|discriminate]. intros H. inversion H; subst x.
+    apply hex_decode_length in E. unfold zlen in Hl. lia.
+Qed.
+
 (** hex request fields become the corresponding byte fields; the first invalid field is reported *)
 Theorem hex_input_to_ocra_ok c q p s t c' q' p' s' t' :
   hex_field T_hex_counter c = Ok c' -> hex_field T_hex_challenge q = Ok q' -> hex_field T_hex_password p = Ok p' ->
